@@ -310,6 +310,7 @@ func checkC36(c *Check) {
 			visit(lp.Body, "")
 		})
 		c.Floor("udp/datagram-chunks-consecutive", 2)
+	holesTestedAfterRecording(c, r, P)
 	}
 
 	// (1b) lockset for the state shared between goroutines under writeMu
@@ -453,4 +454,75 @@ func fieldNameOf(fa *ssa.FieldAddr) string {
 		return ""
 	}
 	return st.Field(fa.Field).Name()
+}
+
+var haveHolesRx = regexp.MustCompile(`([\w:.\[\]*]+)\.HaveHoles\(\)`)
+
+// holesTestedAfterRecording: whether the received sequence numbers have a hole (which arms the timer that asks the peer
+// to resend) is tested on the state that includes what the current datagram brought: in a block that both records
+// received numbers (AcksToSend.AddAckRange on R) and tests R.HaveHoles(), every recording precedes the test. A test made
+// before the recording misses a hole the current datagram opens; if that datagram is the last one, nobody ever asks for
+// the missing chunk and the message is never delivered.
+func holesTestedAfterRecording(c *Check, r *repoCtx, P string) {
+	const rule = "udp/holes-tested-after-recording"
+	for _, name := range sortedKeys(r.funcs) {
+		fi := r.funcs[name]
+		if !strings.HasPrefix(name, P) || fi.Decl.Body == nil || strings.HasSuffix(r.co.Fset.Position(fi.Decl.Pos()).Filename, "fuzz_transport.go") {
+			continue
+		}
+		ir := r.ir(name)
+		if ir == nil {
+			continue
+		}
+		k := 0
+		var visit func(b Block)
+		visit = func(b Block) {
+			lastAdd := map[string]int{}
+			firstTest := map[string]int{}
+			for i, n := range b {
+				walkBlock(Block{n}, nil, func(m Node, _ []Guard) {
+					switch m := m.(type) {
+					case *CallN:
+						if m.Fn != nil && funcDisplayName(m.Fn) == "AcksToSend.AddAckRange" {
+							lastAdd[m.Recv] = i
+						}
+						for _, a := range m.Args {
+							for _, mm := range haveHolesRx.FindAllStringSubmatch(a, -1) {
+								if _, ok := firstTest[mm[1]]; !ok {
+									firstTest[mm[1]] = i
+								}
+							}
+						}
+					case *IfN:
+						for _, mm := range haveHolesRx.FindAllStringSubmatch(m.Cond.String(), -1) {
+							if _, ok := firstTest[mm[1]]; !ok {
+								firstTest[mm[1]] = i
+							}
+						}
+					}
+				})
+			}
+			for _, recv := range sortedKeys(lastAdd) {
+				if ft, ok := firstTest[recv]; ok && ft != lastAdd[recv] { // the same statement: decided in the nested block
+					k++
+					c.Ob(rule, fmt.Sprintf("%s/block#%d", strings.TrimPrefix(name, P), k), lastAdd[recv] < ft, r.pos(b[ft].P()), fmt.Sprintf("statement #%d of the block is the last that records received numbers in %s; HaveHoles() is first tested in statement #%d", lastAdd[recv], localNameRx.ReplaceAllString(recv, "$$"), ft))
+				}
+			}
+			for _, n := range b {
+				switch n := n.(type) {
+				case *IfN:
+					visit(n.Then)
+					visit(n.Else)
+				case *LoopN:
+					visit(n.Body)
+				case *SwitchN:
+					for _, cs := range n.Cases {
+						visit(cs.Body)
+					}
+				}
+			}
+		}
+		visit(ir.Body)
+	}
+	c.Floor(rule, 1)
 }
